@@ -8,8 +8,13 @@
     state                              current device                      -> <state>
     run entries                        get_sel_entries          outcome  ok <hex>,<hex>,… | -
     run get <rid> <res>                get_sel_entry                     ok <hex> <next>
-    run gac <rid> <fuel>               get_and_clear_sel_entry           ok <hex>
+    run gac <rid> <n>                  get_and_clear_sel_entry           ok <hex>
+         n = `retry` (variant with a budget) / fuel (`while True`: out of fuel = py:nontermination)
          each run is on the INITIAL device                      -> <outcome> | <trace> | <state>
+    snap                               the current device becomes the initial one (histories)   -> ok
+    variant <floor|-> <budget|->       variant of pyipmi/sel.py the runs model (default: as read from the source)
+    decode <hex>                       SelEntry._from_response  -> ok <id> <type> <ts> <gen> <evm> <stype> <snum>
+                                                                      <deassert 0|1> <etype> <hex event data> | DecodingError
     state ::= log=<hex,…> deleted=<hex:res,…> cur=<n> valid=<0|1> evs=<n left>
     cfg                                generated constants
 -/
@@ -22,6 +27,7 @@ open PyIpmi PyIpmi.Proto PyIpmi.FruXfer PyIpmi.SelXfer PyIpmi.Spec.Sel
 structure St where
   init : SelDev
   cur : SelDev
+  v : Variant
 
 def parseSlot (s : String) : Option (Option Change) :=
   if s == "n" then some none
@@ -53,19 +59,24 @@ def finish {α} (r : Res SelDev α) (f : α → String) : String :=
 
 def cfg : PyIpmi.SelXfer.Cfg := PyIpmi.Gen.Loops10.selCfg
 
-def runOp (d : SelDev) (op : List String) : String :=
+def runOp (v : Variant) (d : SelDev) (op : List String) : String :=
   let w : World SelDev := ⟨d, []⟩
   match op with
-  | ["entries"] => finish (selEntries cfg respond w) hexList
+  | ["entries"] => finish (selEntries cfg v respond w) hexList
   | ["get", rid, res] =>
     match rid.toNat?, res.toNat? with
-    | some rid, some res => finish (getSelEntry cfg respond w rid res) fun (e, n) => s!"{toHex e} {n}"
+    | some rid, some res => finish (getSelEntry cfg v respond w rid res) fun (e, n) => s!"{toHex e} {n}"
     | _, _ => "bad-op"
   | ["gac", rid, fuel] =>
     match rid.toNat?, fuel.toNat? with
-    | some rid, some fuel => finish (getAndClear cfg respond fuel w rid) toHex
+    | some rid, some fuel => finish (getAndClear cfg v respond fuel w rid) toHex
     | _, _ => "bad-op"
   | _ => "bad-op"
+
+def showEntry (o : Outcome Entry) : String :=
+  match o with
+  | .ok a => s!"ok {a.recordId} {a.type} {a.timestamp} {a.generatorId} {a.evmRev} {a.sensorType} {a.sensorNumber} {if a.deassert then 1 else 0} {a.eventType} {toHex a.eventData}"
+  | e => e.tag
 
 def handle (s : St) (line : String) : St × String :=
   match tokens line with
@@ -75,7 +86,7 @@ def handle (s : St) (line : String) : St × String :=
     match limit.toNat?, whole.toNat?, cur.toNat?, valid.toNat?, parseEvs evs, entries.mapM ofHex with
     | some l, some wh, some c, some v, some ev, some es =>
       let d : SelDev := ⟨es, l, wh != 0, c, v != 0, ev, []⟩
-      (⟨d, d⟩, "ok")
+      ({ s with init := d, cur := d }, "ok")
     | _, _, _, _, _, _ => (s, "bad-op")
   | ["x", cmd, h] =>
     match cmd.toNat?, ofHex h with
@@ -84,9 +95,18 @@ def handle (s : St) (line : String) : St × String :=
       ({ s with cur := r.1 }, toHex r.2)
     | _, _ => (s, "bad-op")
   | ["state"] => (s, showState s.cur)
-  | "run" :: op => (s, runOp s.init op)
+  | "run" :: op => (s, runOp s.v s.init op)
+  | ["snap"] => ({ s with init := s.cur }, "ok")
+  | ["variant", f, b] =>
+    match (if f == "-" then some none else f.toInt?.map some), (if b == "-" then some none else b.toNat?.map some) with
+    | some f, some b => ({ s with v := ⟨f, b⟩ }, "ok")
+    | _, _ => (s, "bad-op")
+  | ["decode", h] =>
+    match ofHex h with
+    | some d => (s, showEntry (decodeEntry d))
+    | none => (s, "bad-op")
   | _ => (s, "bad-op")
 
 def main : IO Unit := do
   let d : SelDev := ⟨[], 0, false, 0, false, [], []⟩
-  loopS (← IO.getStdin) (← IO.getStdout) handle ⟨d, d⟩
+  loopS (← IO.getStdin) (← IO.getStdout) handle ⟨d, d, PyIpmi.Gen.Loops10.selVariant⟩
